@@ -402,6 +402,94 @@ def case_clean_misfit(case):
         uninstall(E, saved)
 
 
+def _duck_sim(sv):
+    sim = _Duck()
+    sim._misfit = None
+    sim._gradient = None
+    sim._computed = True
+    sim.survey = sv
+    sim.data = sv.data
+    sim.file_dir = None
+    sim._dict_initiate = {}
+    sim._dict_efield = {}
+    sim._dict_efield_info = {}
+    sim._dict_grid = {}
+    return sim
+
+
+def case_survey_reuse(case):
+    """A survey that went through one misfit evaluation is given a new noise
+    model (or has gaps in its data filled / opened) and is then used by a NEW
+    simulation: the misfit must follow the current standard deviation and the
+    current set of finite data."""
+    shape, what = case
+    E = shadow.load()
+    c = set_ctx(Ctx(timeout_ms=60000))
+    State.OBJECT_ALLOC = True
+    saved = install(E)
+    grp = f"survey re-used by a new simulation after '{what}' shape={shape}"
+    try:
+        sv, d, nfv, rev, stdv = build(E, c, shape, 'scalar', None, False)
+        gap = (0,)*len(shape)
+        if what in ('fill_gap',):
+            sv.data.observed.data[gap] = symx.NAN
+
+        def newsyn(tag):
+            syn = np.empty(shape, dtype=object)
+            for i in np.ndindex(*shape):
+                syn[i] = Qc.var(f"{tag}{list(i)}")
+            return syn
+        syn1 = newsyn('s')
+        sv.data['synthetic'] = sv.data.observed.copy(
+            data=syn1.view(symx.SymArray))
+        simA = _duck_sim(sv)
+        E.simulations.Simulation.misfit.fget(simA)
+        sv.isfinite                     # (caches its mask)
+        sv.finite_data()
+        nf_now = nfv
+        dd = {i: d[i] for i in np.ndindex(*shape)}
+        skip = set()
+        if what == 'noise_floor':
+            nf_now = Q.var('nf2')
+            c.assume(B(nf_now.t > 0))
+            sv.noise_floor = nf_now
+        elif what == 'std':
+            stdn = sym_array('sd2', shape, positive=True)
+            sv.standard_deviation = stdn
+        elif what == 'fill_gap':
+            dd[gap] = Qc.var('filled')
+            sv.data.observed.data[gap] = dd[gap]
+        elif what == 'open_gap':
+            sv.data.observed.data[gap] = symx.NAN
+            skip.add(gap)
+        if what == 'fill_gap':
+            pass
+        # a NEW simulation (fresh caches) on the same survey object
+        simB = _duck_sim(sv)
+        got = E.simulations.Simulation.misfit.fget(simB)
+        got = got.item() if isinstance(got, np.ndarray) else got
+        want = Q(Fraction(0))
+        for i in np.ndindex(*shape):
+            if i in skip:
+                continue
+            if what == 'std':
+                w_ = 1/(stdn[i]*stdn[i])
+            else:
+                w_ = 1/(nf_now*nf_now)
+            want = want + (syn1[i]-dd[i]).abs2()*w_
+        want = want/2
+        g = Qc._co(got)
+        vd, m = c.valid(symx.qt(g.re) == symx.qt(want), label='reuse')
+        return [ob("misfit of a new simulation on a re-used survey follows "
+                   "the current noise model and the currently finite data",
+                   vd, group=grp, cls='NRA-small',
+                   key=f"misfit on a re-used survey is stale ({what})",
+                   cex=dict(kind='reuse', shape=list(shape), what=what)
+                   if vd == 'cex' else None)]
+    finally:
+        uninstall(E, saved)
+
+
 def case_copy_select(case):
     """copy / to_dict->from_dict / select: equal content, no aliasing,
     exact sub-cube."""
@@ -692,6 +780,49 @@ def replay(cex):
             f"real misfit after noise_floor reassignment and "
             f"clean('{cex['what']}'): {got} vs {want} with the new noise "
             f"floor")
+    if kind == 'reuse':
+        # through the public API: real Simulation objects, real solves
+        what = cex['what']
+        grid = emg3d.TensorMesh([np.array([2., 1., 1., 2.])*100]*3, (0, 0, 0))
+        src = [emg3d.TxElectricDipole((250., 150., 150., 20., 10.))]
+        rec = [emg3d.RxElectricPoint((225., 250., 200., 0., 0.)),
+               emg3d.RxElectricPoint((275., 225., 225., 30., 10.))]
+        model = emg3d.Model(grid, property_x=rng.uniform(.5, 2,
+                                                         grid.shape_cells),
+                            mapping='Conductivity')
+        data = (rng.normal(size=(1, 2, 1))+1j*rng.normal(size=(1, 2, 1)))*1e-9
+        opts = dict(gridding='same', max_workers=1, verb=-1,
+                    receiver_interpolation='linear', tqdm_opts=False,
+                    solver_opts=dict(tol=1e-8, plain=True, maxit=100))
+        d0 = data.copy()
+        if what == 'fill_gap':
+            d0[0, 0, 0] = np.nan+1j*np.nan
+        survey = emg3d.Survey(src, rec, [1.0], data=d0, noise_floor=1e-10)
+        float(emg3d.Simulation(survey, model, **opts).misfit)
+        survey.isfinite
+        kw = dict(noise_floor=1e-10)
+        dnow = d0.copy()
+        if what == 'noise_floor':
+            survey.noise_floor = 2e-10
+            kw = dict(noise_floor=2e-10)
+        elif what == 'std':
+            sd = rng.uniform(1, 3, (1, 2, 1))*1e-10
+            survey.standard_deviation = sd
+        elif what == 'fill_gap':
+            survey.data.observed.data[0, 0, 0] = data[0, 0, 0]
+            dnow = data.copy()
+        elif what == 'open_gap':
+            survey.data.observed.data[0, 0, 0] = np.nan+1j*np.nan
+            dnow[0, 0, 0] = np.nan+1j*np.nan
+        got = float(emg3d.Simulation(survey, model, **opts).misfit)
+        fresh = emg3d.Survey(src, rec, [1.0], data=dnow, **kw)
+        if what == 'std':
+            fresh.standard_deviation = sd
+        want = float(emg3d.Simulation(fresh, model, **opts).misfit)
+        return not np.isclose(got, want, rtol=1e-8, atol=0), (
+            f"real Simulation on a survey re-used after '{what}': misfit "
+            f"{got:.6e} vs {want:.6e} of a fresh survey with the same "
+            f"content")
     if kind in ('copy', 'select', 'sigma', 'misfit'):
         shape = tuple(cex.get('shape') or cex['case'][0])
         nf = cex.get('nf', cex.get('case', [0, None])[1])
@@ -819,6 +950,8 @@ def main(tier):
         jobs.append(('case_reassign', (shapes[0], w)))
     for w in ('computed', 'all'):
         jobs.append(('case_clean_misfit', (shapes[0], w)))
+    for w in ('noise_floor', 'std', 'fill_gap', 'open_gap'):
+        jobs.append(('case_survey_reuse', (shapes[0], w)))
     obs = pmap(_dispatch, jobs)
     run.add(obs)
     run.bounds = dict(shapes=shapes, parameter_forms=combos,
